@@ -18,6 +18,17 @@ import os
 from harness import common
 from harness.common import Check
 
+def _rm_cases(name):
+    """case files are named per process (concurrent runs of one check must not share them) and removed after evaluation"""
+    import glob
+
+    for q in glob.glob(os.path.join(common.GEN, f"Cases_{name}_*.v")):
+        try:
+            os.remove(q)
+        except OSError:
+            pass
+
+
 REGISTRY = dict(
     text=("Proof (unbounded): for every history and every n_stack >= 1 the frame-stack window is the last n observations of the current episode zero-padded on the old side "
           "(polymorphic in the frame type), the stacked terminal observation is the same suffix of the episode that just ended; for every stack of wrappers "
@@ -591,7 +602,8 @@ def run_sync_stream(chk, n_cases):
             expected.append(("unwrap", {"chain": [l["cls"] for l in train], "query": q}, got_u))
             stats["sync"] += 1
             stats["unwrap"] += 1
-    vals = common.coq_eval_many("C17s", SYNC_HEADER, exprs, shard=200, procs=4)
+    vals = common.coq_eval_many(f"C17s_{os.getpid()}", SYNC_HEADER, exprs, shard=200, procs=4)
+    _rm_cases(f"C17s_{os.getpid()}")
 
     def opt(x):
         return x[1] if isinstance(x, tuple) and x and x[0] == "Some" else None
@@ -702,7 +714,8 @@ def main():
         except Exception as e:  # noqa: BLE001
             impls.append({"crash": f"{type(e).__name__}: {e}"})
     has_norm = [any(w["w"] == "normalize" for w in c["wrappers"]) for c in cases]
-    mv = common.coq_eval_many("C17", HEADER, [coq_case(c) for c, hn in zip(cases, has_norm) if not hn], shard=80, procs=4)
+    mv = common.coq_eval_many(f"C17_{os.getpid()}", HEADER, [coq_case(c) for c, hn in zip(cases, has_norm) if not hn], shard=80, procs=4)
+    _rm_cases(f"C17_{os.getpid()}")
     it = iter(mv)
     vals = [None if hn else next(it) for hn in has_norm]
     hist = {"base": {}, "wrappers": {}, "depth": {}, "n_stack": {}, "n_envs": {}, "episode_ends": 0, "events": 0, "terminal_checked": 0}
